@@ -171,3 +171,70 @@ def otsu_scores(data: np.ndarray, nbins: int = 256):
         scores = w1 * w2 * (s1 / w1 - s2 / w2) ** 2
     scores[(w1 == 0) | (w2 == 0)] = np.nan
     return centres, scores
+
+
+# --- real spherical harmonics from the textbook formulas (no scipy.special) ----------------------------------------------------
+def assoc_legendre_no_cs(l: int, m: int, x):
+    """Associated Legendre function P_l^m(x) for 0 <= m <= l WITHOUT the Condon-Shortley phase, by the standard recurrences:
+    P_m^m = (2m-1)!! (1-x^2)^(m/2),  P_(m+1)^m = x (2m+1) P_m^m,  (l-m) P_l^m = x (2l-1) P_(l-1)^m - (l+m-1) P_(l-2)^m."""
+    x = np.asarray(x, float)
+    pmm = np.ones_like(x)
+    if m > 0:
+        somx2 = np.sqrt(np.clip(1.0 - x * x, 0.0, None))
+        fact = 1.0
+        for _ in range(m):
+            pmm = pmm * fact * somx2
+            fact += 2.0
+    if l == m:
+        return pmm
+    pmmp1 = x * (2 * m + 1) * pmm
+    if l == m + 1:
+        return pmmp1
+    pll = pmmp1
+    for ll in range(m + 2, l + 1):
+        pll = (x * (2 * ll - 1) * pmmp1 - (ll + m - 1) * pmm) / (ll - m)
+        pmm, pmmp1 = pmmp1, pll
+    return pll
+
+
+def real_sph_harm(l: int, m: int, theta, phi):
+    """Real spherical harmonic Y_lm(theta = polar angle from z, phi = azimuth) in the usual orthonormal convention:
+    sqrt(2) N P_l^|m|(cos theta) cos(m phi) for m > 0, N P_l(cos theta) for m = 0, sqrt(2) N P_l^|m| sin(|m| phi) for m < 0,
+    N = sqrt((2l+1)/(4 pi) (l-|m|)!/(l+|m|)!), P without Condon-Shortley phase."""
+    import math
+
+    am = abs(m)
+    N = math.sqrt((2 * l + 1) / (4 * math.pi) * math.factorial(l - am) / math.factorial(l + am))
+    P = assoc_legendre_no_cs(l, am, np.cos(np.asarray(theta, float)))
+    if m > 0:
+        return math.sqrt(2) * N * P * np.cos(m * np.asarray(phi, float))
+    if m < 0:
+        return math.sqrt(2) * N * P * np.sin(am * np.asarray(phi, float))
+    return N * P
+
+
+def lm_from_k(k: int):
+    """documented combined index k = l (l + 1) + m"""
+    import math
+
+    l = int(math.isqrt(k))
+    return l, k - l * (l + 1)
+
+
+def series_3d(R0, amps, theta, phi):
+    """documented shape of PerturbedDroplet3D: R0 [1 + sum_k a_k Y_(l(k), m(k))], amplitudes[0] belonging to k = 1"""
+    d = np.ones(np.broadcast(np.asarray(theta, float), np.asarray(phi, float)).shape)
+    for i, a in enumerate(amps):
+        if a != 0:
+            l, m = lm_from_k(i + 1)
+            d = d + a * real_sph_harm(l, m, theta, phi)
+    return R0 * d
+
+
+def series_axisym(R0, amps, theta):
+    """documented shape of PerturbedDroplet3DAxisSym: R0 [1 + sum_l a_l Y_(l,0)(theta)], amplitudes[0] belonging to l = 1"""
+    d = np.ones(np.shape(np.asarray(theta, float)))
+    for i, a in enumerate(amps):
+        if a != 0:
+            d = d + a * real_sph_harm(i + 1, 0, theta, 0.0)
+    return R0 * d
